@@ -240,10 +240,18 @@ def shards(tier: str) -> List[Dict[str, Any]]:
         for i in range(k if q else k * 3):
             out.append({'name': '%s-%d' % (what, i), 'what': what, 'examples': n if q else n * 8,
                         'pair_limit': 90 if q else 140})
+    if tier != 'quick':
+        for t_ in ('req', 'resp', 'chunk', 'cl0', 'bodyless', 'statusline'):
+            out.append({'name': 'atheris-' + t_, 'kind': 'atheris', 'what': t_, 'target': t_, 'runs': 150000, 'examples': 0, 'pair_limit': 0})
     return out
 
 
 def run_shard(spec: Dict[str, Any], seed: int, acc: Any) -> None:
+    if spec.get('kind') == 'atheris':
+        import sys
+        from vf.fuzz import run as fuzz_run
+        fuzz_run.campaign(sys.modules[__name__], spec['target'], acc, runs=spec['runs'], seed=seed)
+        return
     chunk_ref.selftest()
     what = spec['what']
 
@@ -274,3 +282,22 @@ def run_shard(spec: Dict[str, Any], seed: int, acc: Any) -> None:
         return d
 
     hyp.drive(cases(what), chk, acc, max_examples=spec['examples'], seed=seed, to_case=to_case)
+
+
+# -- coverage-guided campaign (thorough tier) -----------------------------------------------------------------
+
+def _all_cuts_check(c: Dict[str, Any]) -> List[Any]:
+    raw, mlen, kind, _ = case_bytes(c)
+    base = {k: v for k, v in c.items() if k != 'extra_cuts'}
+    feed = (lambda ps: feed_chunk(ps)) if kind == 'chunk' else (lambda ps: feed_http(kind, ps, mlen))
+    one = feed([raw])
+    out: List[Any] = []
+    for cuts in cut_sets_for(c, raw, mlen, 0):
+        out.extend(check_cuts(base, cuts, one))
+        if out:
+            break
+    return out
+
+
+def fuzz_targets() -> Dict[str, Any]:
+    return {w: (cases(w), _all_cuts_check) for w in ('req', 'resp', 'chunk', 'cl0', 'bodyless', 'statusline')}
